@@ -189,3 +189,60 @@ pub fn replay_history_repeats<T: Sync>(case: &J, parse: &dyn Fn(&J) -> T, op: &(
         Err((format!("history-changes-output:{name}:after-repeats"), format!("alone {}, after {}", alone.chars().take(200).collect::<String>(), after.chars().take(200).collect::<String>())))
     }
 }
+
+
+/// A writer that takes at most `limit` bytes per call and reports Interrupted on every
+/// `interrupt_every`-th call (0 = never).
+pub struct LimitedWriter {
+    pub out: Vec<u8>,
+    pub limit: usize,
+    pub interrupt_every: usize,
+    calls: usize,
+    just_interrupted: bool,
+}
+impl LimitedWriter {
+    pub fn new(limit: usize, interrupt_every: usize) -> Self {
+        LimitedWriter { out: vec![], limit, interrupt_every, calls: 0, just_interrupted: false }
+    }
+}
+impl std::io::Write for LimitedWriter {
+    fn write(&mut self, buf: &[u8]) -> std::io::Result<usize> {
+        self.calls += 1;
+        if self.interrupt_every > 0 && self.calls % self.interrupt_every == 0 && !self.just_interrupted {
+            self.just_interrupted = true;
+            return Err(std::io::Error::new(std::io::ErrorKind::Interrupted, "EINTR"));
+        }
+        self.just_interrupted = false;
+        let n = buf.len().min(self.limit);
+        self.out.extend_from_slice(&buf[..n]);
+        Ok(n)
+    }
+    fn flush(&mut self) -> std::io::Result<()> {
+        Ok(())
+    }
+}
+
+/// The Zinc text of a value, obtained through `to_zinc_string` AND through `ToZinc::to_zinc` into
+/// writers that take 1 / 3 bytes per call or report Interrupted on every other call: the text a
+/// caller's writer receives is the text. Err = (stage, detail).
+pub fn zinc_text_all_writers(lv: &libhaystack::val::Value) -> Result<String, (String, String)> {
+    use libhaystack::encoding::zinc::encode::{to_zinc_string, ToZinc};
+    let text = match crate::engine::guarded(|| to_zinc_string(lv)) {
+        Err(p) => return Err(("encode-panic".into(), p)),
+        Ok(Err(e)) => return Err(("encode-error".into(), e.to_string())),
+        Ok(Ok(t)) => t,
+    };
+    for (limit, every) in [(1usize, 0usize), (3, 0), (usize::MAX, 2)] {
+        let mut w = LimitedWriter::new(limit, every);
+        match crate::engine::guarded(|| lv.to_zinc(&mut w).map_err(|e| e.to_string())) {
+            Err(p) => return Err(("encode-panic:writer".into(), p)),
+            Ok(Err(e)) => return Err(("encode-error:writer".into(), format!("a writer taking {limit} bytes per call (Interrupted every {every}): {e}"))),
+            Ok(Ok(())) => {
+                if w.out != text.as_bytes() {
+                    return Err(("encode-writer-receives-other-text".into(), format!("a writer taking {limit} bytes per call (Interrupted every {every}) received {:?}, to_zinc_string gives {text:?}", String::from_utf8_lossy(&w.out))));
+                }
+            }
+        }
+    }
+    Ok(text)
+}
